@@ -120,21 +120,26 @@ def _explain_read(got_events, exp_events, fm, declines, ok, rest_ok, consumer, w
     or None.  Returns (causes, desynced)."""
     got = _items(got_events, with_arg)
     exp = _items(exp_events, with_arg)
-    causes = set()
+
+    def strip(es):
+        if consumer != "rec":
+            return es, set()
+        out, changed = _strip_members(es, fm)
+        return out, ({C_MEMBER} if changed else set())
+
+    # without a lost stream: the whole read must agree once the members delivered against the flags are set aside
+    work, causes = strip(got)
+    if work == exp and ok and rest_ok:
+        return causes, False
+    # a declined code: everything up to it is as expected, behind it the stream is lost
     codes = set(declines.get("codes") or []) if consumer != "unit" else set()
     cut = next((i for i, t in enumerate(got) if t[0] == "method" and t[1] == "visit_code" and t[4] in codes), None)
-    work = got if cut is None else got[:cut + 1]
-    if cut is not None:
-        causes.add(C_CODE)
-    if consumer == "rec":
-        work, changed = _strip_members(work, fm)
-        if changed:
-            causes.add(C_MEMBER)
     if cut is None:
-        good = work == exp and ok and rest_ok
-    else:
-        good = exp[:len(work)] == work          # everything up to the declined code is as expected; behind it the stream is lost
-    return (causes if good else None), cut is not None
+        return None, False
+    work, causes = strip(got[:cut + 1])
+    if exp[:len(work)] == work:
+        return causes | {C_CODE}, True
+    return None, False
 
 
 def _slot(t):
@@ -185,17 +190,16 @@ def _causes(op, rec, got, exp, s2i):
     if op == "mask":
         if not (got["full"]["ok"] and got["full"]["rest"] == 0):
             return None
-        e = exp["skeleton"] if s2i else exp["masked"]
-        c, _ = _explain_read(got["masked"]["events"], e, fm, d, got["masked"]["ok"], got["masked"]["rest"] == 0, co, not s2i)
+        c, _ = _explain_read(got["masked"]["events"], exp["skeleton"], fm, d, got["masked"]["ok"], got["masked"]["rest"] == 0, co, False)
         return c
     if op == "concat":
-        exps = exp["skeletons"] if s2i else exp["reads"]
+        exps = exp["skeletons"]
         causes = set()
         for i, e in enumerate(exps):
             if i >= len(got["reads"]):
                 return None
             r = got["reads"][i]
-            c, desync = _explain_read(r["events"], e, fm, d, r["ok"], r["behind"] == 0, co, not s2i)
+            c, desync = _explain_read(r["events"], e, fm, d, r["ok"], r["behind"] == 0, co, False)
             if c is None:
                 return None
             causes |= c
@@ -211,7 +215,7 @@ def _causes(op, rec, got, exp, s2i):
         codes = set(d.get("codes") or [])
         blank = lambda es: [t[:6] + ("",) + t[7:] if (t[0] == "code" and t[1] == "visit_instruction") else t for t in es]
         smt_off = not fm["code"]["stack_map_table"]
-        if s2i:
+        if s2i and "skeleton" in exp.get("replay", {}):
             sk = _items(got["replay"]["skeleton"], False)
             want = _items(exp["replay"]["skeleton"], False)
             if sk != want:
@@ -221,27 +225,34 @@ def _causes(op, rec, got, exp, s2i):
                     return None
         if not got["replay"]["ok"]:
             return None
-        if any(t[0] == "method" and t[1] == "visit_code" and t[4] in codes for t in read):
-            causes.add(C_CODE)           # the read this replay is compared with is lost behind the declined code
-            return causes
-        if not got["read"]["ok"]:
-            return None
-        r2, changed = _strip_members(read, fm)
-        if changed:
-            causes.add(C_MEMBER)
-        p2 = replay
-        if smt_off and blank(replay) != replay:
-            p2 = blank(replay)
-            causes.add(C_FRAMES)
-        if not _same_up_to_commutation(r2, p2):
-            return None
-        for p in got.get("tree_diff") or []:
-            if C_MEMBER in causes and ("/fields" in p or "/methods" in p):
-                continue
-            if C_FRAMES in causes and "StackMapTable" in p:
-                continue
-            return None
-        return causes
+        declined_code = any(t[0] == "method" and t[1] == "visit_code" and t[4] in codes for t in read)
+
+        def compare():
+            c = set()
+            if not got["read"]["ok"]:
+                return None
+            r2, changed = _strip_members(read, fm)
+            if changed:
+                c.add(C_MEMBER)
+            p2 = replay
+            if smt_off and blank(replay) != replay:
+                p2 = blank(replay)
+                c.add(C_FRAMES)
+            if not _same_up_to_commutation(r2, p2):
+                return None
+            for p in got.get("tree_diff") or []:
+                if C_MEMBER in c and ("/fields" in p or "/methods" in p):
+                    continue
+                if C_FRAMES in c and "StackMapTable" in p:
+                    continue
+                return None
+            return c
+        c = compare()
+        if c is not None:
+            return causes | c
+        if declined_code:
+            return causes | {C_CODE}     # the read this replay is compared with is lost behind the declined code
+        return None
     return None
 
 
@@ -249,7 +260,7 @@ def _first_difference(op, got, exp):
     try:
         if op == "mask":
             a = _items(got["masked"]["events"], False)
-            b = _items(exp.get("skeleton") if "skeleton" in exp else exp.get("masked"), False)
+            b = _items(exp.get("skeleton"), False)
             for x, y in zip(a, b):
                 if x != y:
                     return "got=%s.%s,exp=%s.%s" % (x[0], x[1], y[0], y[1])
